@@ -333,13 +333,21 @@ type admCfg struct {
 	HookMsg   string
 	// PreflightContinue: a CORS policy is configured that passes OPTIONS requests on to the engine's own checks
 	PreflightContinue bool
-	MW        string // none | ok | fail
+	// MW: none | ok | fail | chain-fail (three middlewares, the last one fails) | fail-first (the first of two fails, the
+	// second would accept) | ok-late / fail-late (the middleware calls next from another goroutine after it returned)
+	// | keeps (the middleware answers the request itself with 401 and never calls next, as the built-in CORS
+	// middleware does with a preflight)
+	MW        string
 	AllowEIO3 bool
 	Enabled   string // pw | p | w | pwt
 }
 
 func (c admCfg) String() string {
 	return fmt.Sprintf("{hook=%s(%q) middleware=%s allowEIO3=%v transports=%s corsPreflightContinue=%v}", c.Hook, c.HookMsg, c.MW, c.AllowEIO3, c.Enabled, c.PreflightContinue)
+}
+
+func (c admCfg) mwFails() bool {
+	return c.MW == "fail" || c.MW == "chain-fail" || c.MW == "fail-first" || c.MW == "fail-late"
 }
 
 func (c admCfg) enabled(tr string) bool {
@@ -375,6 +383,9 @@ type admExpect struct {
 	Message  string
 	AfterWS  bool   // refusal happens after the WebSocket connection was accepted
 	Admitted string // handshake | existing
+	// Kept: a middleware answered the request itself and did not pass it on: its answer is the only one, the engine's
+	// checks do not run (no connection_error), no session is created
+	Kept bool
 }
 
 // refAdmission: the documented precedence, written from the statement.
@@ -385,7 +396,13 @@ func refAdmission(c admCfg, r admReq) admExpect {
 	rej := func(status, code int, msg string) admExpect {
 		return admExpect{Reject: true, Status: status, Code: code, Message: msg}
 	}
-	if c.MW == "fail" {
+	if r.Upgrade && (c.MW == "ok-late" || c.MW == "fail-late") {
+		return admExpect{Outside: "a middleware that passes a websocket upgrade request on after the net/http handler has returned (the connection is no longer the handler's)"}
+	}
+	if c.MW == "keeps" {
+		return admExpect{Kept: true}
+	}
+	if c.mwFails() {
 		return rej(400, 3, "Bad request")
 	}
 	tv := r.Transport
@@ -429,6 +446,8 @@ func refAdmission(c admCfg, r admReq) admExpect {
 	}
 	return admExpect{Admitted: "handshake"}
 }
+
+const admKeptBody = "kept by the middleware"
 
 var (
 	admTransports = []string{"absent", "garbage", "polling", "websocket", "webtransport"}
@@ -498,6 +517,48 @@ func newAdmWorld(cfg admCfg) (*admWorld, error) {
 			} else {
 				next(nil)
 			}
+		})
+	case "chain-fail", "fail-first":
+		fail := func(_ *types.HttpContext, next func(error)) {
+			if mwOn {
+				next(errors.New("middleware says no"))
+			} else {
+				next(nil)
+			}
+		}
+		ok := func(_ *types.HttpContext, next func(error)) { next(nil) }
+		if cfg.MW == "chain-fail" {
+			w.Srv.Use(ok)
+			w.Srv.Use(ok)
+			w.Srv.Use(fail)
+		} else {
+			w.Srv.Use(fail)
+			w.Srv.Use(ok)
+		}
+	case "ok-late":
+		w.Srv.Use(func(_ *types.HttpContext, next func(error)) {
+			if mwOn {
+				go next(nil)
+			} else {
+				next(nil)
+			}
+		})
+	case "fail-late":
+		w.Srv.Use(func(_ *types.HttpContext, next func(error)) {
+			if mwOn {
+				go next(errors.New("middleware says no, a little later"))
+			} else {
+				next(nil)
+			}
+		})
+	case "keeps":
+		w.Srv.Use(func(ctx *types.HttpContext, next func(error)) {
+			if mwOn {
+				ctx.SetStatusCode(http.StatusUnauthorized)
+				ctx.Write([]byte(admKeptBody))
+				return
+			}
+			next(nil)
 		})
 	}
 	// fixtures are created with hook and middleware passive
@@ -684,8 +745,17 @@ func (aw *admWorld) runCell(rt *rapid.T, r admReq) (exp admExpect, fail string) 
 	}
 	newErrs := w.ConnErrs[errsBefore:]
 	regAfter := w.RegistryKeys()
-	if exp.Reject {
-		if exp.AfterWS {
+	if exp.Kept {
+		if !s.Responded || s.Status != http.StatusUnauthorized || string(s.Body) != admKeptBody || s.HeaderCalls != 1 || !s.Returned {
+			return exp, fmt.Sprintf("%s: the middleware answered 401 %q itself and did not pass the request on; the client got %v", desc, admKeptBody, s)
+		}
+		if len(newErrs) != 0 {
+			return exp, fmt.Sprintf("%s: a request the middleware kept produced connection_error %+v: the engine's checks ran although the request was not passed on", desc, newErrs[0].CodeMessage)
+		}
+	}
+	if exp.Reject || exp.Kept {
+		if exp.Kept {
+		} else if exp.AfterWS {
 			// accepted as a WebSocket, then closed with a close frame carrying the text
 			if !s.Hijacked {
 				return exp, fmt.Sprintf("%s: want the WebSocket accepted and then closed with %q; got %v", desc, exp.Message, s)
@@ -722,10 +792,10 @@ func (aw *admWorld) runCell(rt *rapid.T, r admReq) (exp admExpect, fail string) 
 				return exp, fmt.Sprintf("%s: Content-Length %q for a body of %d bytes", desc, cl, len(s.Body))
 			}
 		}
-		if len(newErrs) != 1 {
+		if exp.Kept {
+		} else if len(newErrs) != 1 {
 			return exp, fmt.Sprintf("%s: %d connection_error events, want exactly 1", desc, len(newErrs))
-		}
-		if newErrs[0] == nil || newErrs[0].CodeMessage == nil || newErrs[0].Code != exp.Code {
+		} else if newErrs[0] == nil || newErrs[0].CodeMessage == nil || newErrs[0].Code != exp.Code {
 			return exp, fmt.Sprintf("%s: connection_error carries %+v, want code %d", desc, newErrs[0], exp.Code)
 		}
 		if fmt.Sprint(regBefore) != fmt.Sprint(regAfter) {
@@ -811,6 +881,8 @@ func admClasses(exp admExpect) (classes []string, failing int) {
 	switch {
 	case exp.Outside != "":
 		classes = append(classes, "outside-table")
+	case exp.Kept:
+		classes = append(classes, "kept-by-a-middleware")
 	case exp.Reject:
 		classes = append(classes, fmt.Sprintf("reject.code%d", exp.Code))
 		if exp.AfterWS {
@@ -826,7 +898,7 @@ func admClasses(exp admExpect) (classes []string, failing int) {
 // (precedence is exercised when >= 2).
 func failingChecks(c admCfg, r admReq) int {
 	n := 0
-	if c.MW == "fail" {
+	if c.mwFails() {
 		n++
 	}
 	if r.Transport == "absent" || r.Transport == "garbage" || r.Transport == "webtransport" || !c.enabled(r.Transport) {
@@ -855,10 +927,11 @@ func failingChecks(c admCfg, r admReq) int {
 
 func TestC05Admission(t *testing.T) {
 	col := NewCollector("TestC05Admission",
-		"rapid: a server configuration (hook none/accept/reject with a drawn message incl. JSON-special and non-ASCII characters, middleware none/ok/fail, allowEIO3, enabled transports) and 12 abstract requests (transport x Origin x sid x method x upgrade x EIO) per case, each instantiated with drawn concrete strings (parameter order, percent-encoding, extra parameters, repeated equal parameters, garbage values, control bytes and positions, header spellings); oracle: reference implementation of the documented precedence -> status, exact JSON {code,message}, exactly one connection_error with that code, registry and ClientsCount unchanged, named/other sessions still open, canary session round-trips; refusal after WebSocket accept -> close frame with the same text. non-trivial: the request fails >= 2 of the documented checks (precedence matters) or is refused after the WebSocket was accepted").Use(t)
+		"rapid: a server configuration (hook none/accept/reject with a drawn message incl. JSON-special and non-ASCII characters, middleware none / accepting / failing / a chain of three whose last one fails / a failing one in front of an accepting one / one that passes the request on or refuses it from another goroutine after it has returned / one that answers the request itself (401) and never passes it on, allowEIO3, enabled transports) and 12 abstract requests (transport x Origin x sid x method x upgrade x EIO) per case, each instantiated with drawn concrete strings (parameter order, percent-encoding, extra parameters, repeated equal parameters, garbage values, control bytes and positions, header spellings); oracle: reference implementation of the documented precedence -> status, exact JSON {code,message}, exactly one connection_error with that code, registry and ClientsCount unchanged, named/other sessions still open, canary session round-trips; refusal after WebSocket accept -> close frame with the same text; a request kept by a middleware gets that middleware's answer only, no connection_error, no session. non-trivial: the request fails >= 2 of the documented checks (precedence matters), is refused after the WebSocket was accepted, is kept by a middleware or passed on late").Use(t)
 	known5 := isKnown("C05", sigCode5)
 	rapid.Check(t, propC05Admission(t, col, known5))
-	req := []string{"reject.code0", "reject.code1", "reject.code2", "reject.code3", "reject.code4", "admitted", "precedence-exercised"}
+	req := []string{"reject.code0", "reject.code1", "reject.code2", "reject.code3", "reject.code4", "admitted", "precedence-exercised",
+		"kept-by-a-middleware", "middleware.chain-fail", "middleware.fail-first", "middleware.ok-late", "middleware.fail-late"}
 	if !known5 {
 		req = append(req, "reject.code5", "reject.after-websocket-accept")
 	}
@@ -949,7 +1022,7 @@ func propC05Admission(t *testing.T, col *Collector, known5 bool) func(rt *rapid.
 	return func(rt *rapid.T) {
 		cfg := admCfg{
 			Hook:      rapid.SampledFrom([]string{"none", "accept", "reject", "reject"}).Draw(rt, "hook"),
-			MW:        rapid.SampledFrom([]string{"none", "none", "ok", "ok", "ok", "fail"}).Draw(rt, "mw"),
+			MW:        rapid.SampledFrom([]string{"none", "none", "ok", "ok", "ok", "fail", "chain-fail", "fail-first", "ok-late", "ok-late", "fail-late", "keeps"}).Draw(rt, "mw"),
 			AllowEIO3: rapid.Bool().Draw(rt, "allowEIO3"),
 			Enabled:   rapid.SampledFrom(admEnabled).Draw(rt, "enabled"),
 		}
@@ -996,7 +1069,10 @@ func propC05Admission(t *testing.T, col *Collector, known5 bool) func(rt *rapid.
 				if n >= 2 && exp.Reject {
 					classes = append(classes, "precedence-exercised")
 				}
-				col.Case(fmt.Sprint(cfg, r), exp.Outside == "" && ((n >= 2 && exp.Reject) || exp.AfterWS), map[string]any{"config": cfg.String(), "request": r.String(), "expect": fmt.Sprintf("%+v", exp)}, classes...)
+				if exp.Outside == "" && cfg.MW != "none" && cfg.MW != "ok" {
+					classes = append(classes, "middleware."+cfg.MW)
+				}
+				col.Case(fmt.Sprint(cfg, r), exp.Outside == "" && ((n >= 2 && exp.Reject) || exp.AfterWS || exp.Kept || cfg.MW == "ok-late"), map[string]any{"config": cfg.String(), "request": r.String(), "expect": fmt.Sprintf("%+v", exp)}, classes...)
 				if f != "" {
 					fail = f
 					return
